@@ -31,9 +31,136 @@ theorem history_refines_from (r : Reg) (ops : List ROp) (h : Inv r) :
 theorem history_refines (ops : List ROp) : (run new ops).2 = (specRun [PMap.empty] ops).2 :=
   (history_refines_from new ops inv_new).2.1
 
+/-- Lookups, removals and in-place entry access resolve to the innermost scope holding the type: `find`
+returns the first scope whose own map has it, and every accessor reads / removes / writes THAT cell. -/
+theorem lookup_innermost (r : Reg) (k : Key) (i v : Nat) (h : Inv r) (hf : find r k = some i) :
+    (scopeAt r i).has k = true ∧ (∀ j, j < i → (scopeAt r j).has k = false) ∧
+    ∃ c, cellAt r i k = some c ∧
+      step r (.find k) = (r, .depth i) ∧ step r (.tryGet k) = (r, .val c.val) ∧ step r (.get k) = (r, .val c.val) ∧
+      step r (.rem k) = (modifyAt r i (·.erase k), .val c.val) ∧
+      step r (.set k v) = (writeAt r i k (fun _ => v), .val c.val) ∧
+      step r (.getMut k v) = (writeAt r i k (fun _ => v), .val c.val) ∧
+      step r (.occGet k) = (r, .val c.val) ∧
+      step r (.occIns k v) = (modifyAt r i (·.put k (fresh v)), .val c.val) ∧
+      step r (.occRem k) = (modifyAt r i (·.erase k), .val c.val) ∧
+      step r (.entOrIns k v) = (r, .val c.val) := by
+  obtain ⟨c, hc⟩ := find_cell r k i hf
+  have hl := lookup_found r k i c hf hc
+  have hw := (quiet_cell r i k c h.2 hc).2
+  refine ⟨find_has r k i hf, fun j hj => find_first r k i j hf hj, c, hc, ?_⟩
+  simp [step, hf, tryGetValue_quiet r k h.2, hl, Out.ofRes, Out.orPanic, remove, hc,
+    setValue_quiet r k v i c h.2 hf hc, Out.ofOpt, getMut_found r k i hf, entry_found r k i hf, occGet, hw,
+    occInsert, occRemove, orInsert_found r i k v c h.2 hc]
+
+/-- `insert` always writes this registry's own (innermost) map, leaves every parent alone, and reports the
+previous value of THAT map — not the one the lookup would have found further out. -/
+theorem insert_top_reports_top (s : Scope) (p : Reg) (k : Key) (v : Nat) :
+    step (s :: p) (.ins k v) = (s.put k (fresh v) :: p, .ofOpt (s.view k)) ∧
+    find (s.put k (fresh v) :: p) k = some 0 ∧
+    cellAt (s.put k (fresh v) :: p) 0 k = some (fresh v) := by
+  refine ⟨by simp [step, Registry.insert, Scope.view], ?_, ?_⟩
+  · simp [find_cons, Scope.has, Scope.get?_put]
+  · simp [cellAt, scopeAt_zero, Scope.get?_put]
+
+/-- Removing the innermost binding touches only that scope and re-exposes whatever the scopes further out
+say about the type (its shadowed value, unchanged, or absence); other types are not affected. -/
+theorem remove_innermost_reexposes (r : Reg) (k : Key) (i : Nat) (h : Inv r) (hf : find r k = some i) :
+    (step r (.rem k)).1 = modifyAt r i (·.erase k) ∧
+    (∀ j, j ≠ i → scopeAt (step r (.rem k)).1 j = scopeAt r j) ∧
+    (∀ k', k' ≠ k → ∀ j, cellAt (step r (.rem k)).1 j k' = cellAt r j k') ∧
+    find (step r (.rem k)).1 k = (find (r.drop (i + 1)) k).map (· + (i + 1)) ∧
+    (step (step r (.rem k)).1 (.tryGet k)).2 = (step (r.drop (i + 1)) (.tryGet k)).2 := by
+  obtain ⟨c, hc⟩ := find_cell r k i hf
+  have hi := find_lt r k i hf
+  have hr : (step r (.rem k)).1 = modifyAt r i (·.erase k) := by simp [step, remove, hf, hc]
+  rw [hr]
+  refine ⟨rfl, ?_, ?_, find_after_erase r k i hf, ?_⟩
+  · intro j hj; rw [scopeAt_modifyAt r i j _ hi]; simp [hj]
+  · intro k' hk' j
+    simp only [cellAt, scopeAt_modifyAt r i j _ hi]
+    split
+    · rename_i hj; subst hj; simp [Scope.get?_erase, hk']
+    · rfl
+  · have hq' := quiet_erase_at r i k h.2
+    simp only [step, tryGetValue_quiet _ k hq', tryGetValue_quiet _ k (quiet_drop r (i + 1) h.2),
+      abs_erase_found r k i hf, abs_drop]
+    rw [lookup_after_erase (abs r) k i (by rw [← find_abs]; exact hf)]
+
+/-- An absent type is reported as an error / `None` / `vacant` and is never invented: no non-inserting
+operation changes the registry; the inserting entry combinators put the new value into the top scope. -/
+theorem absent_is_error_not_invented (r : Reg) (k : Key) (v d : Nat) (hf : find r k = none) :
+    step r (.get k) = (r, .panic) ∧ step r (.tryGet k) = (r, .err .notFound) ∧
+    step r (.set k v) = (r, .none) ∧ step r (.getMut k v) = (r, .none) ∧
+    step r (.rem k) = (r, .err .notFound) ∧ step r (.take k) = (r, .panic) ∧
+    step r (.has k) = (r, .bool false) ∧ step r (.hasTop k) = (r, .bool false) ∧
+    step r (.find k) = (r, .err .notFound) ∧ step r (.findMut k) = (r, .err .notFound) ∧
+    step r (.req k) = (r, .err .required) ∧
+    step r (.entMod k d) = (r, .bool false) ∧ step r (.entModV k d) = (r, .bool false) ∧
+    step r (.occGet k) = (r, .vacant) ∧ step r (.occGetMut k v) = (r, .vacant) ∧
+    step r (.occIntoMut k v) = (r, .vacant) ∧ step r (.occIns k v) = (r, .vacant) ∧
+    step r (.occRem k) = (r, .vacant) ∧
+    step r (.entOrIns k v) = (modifyAt r 0 (·.put k (fresh v)), .val v) ∧
+    step r (.entOrDef k) = (modifyAt r 0 (·.put k (fresh 0)), .val 0) ∧
+    step r (.entModOrIns k d v) = (modifyAt r 0 (·.put k (fresh v)), .val v) ∧
+    step r (.vacIns k v) = (modifyAt r 0 (·.put k (fresh v)), .val v) := by
+  have h0 := find_none r k hf 0
+  simp [step, hf, tryGetValue, tryBorrow, setValue_absent r k v hf, getMut, remove, contains, containsAtTop, h0,
+    Out.orPanic, Out.ofRes, Out.ofOpt, entry_absent r k hf, andModify_absent, orInsert_absent, vacInsert]
+
+/-- Every operation keeps the keys of every map unique (what `HashMap` guarantees). -/
+theorem nodup_preserved (r : Reg) (op : ROp) (h : nodupKeys r) : nodupKeys (step r op).1 :=
+  step_nodupKeys r op h
+
+/-- Popping a scope: for every block of operations executed between `into_child` and the matching
+`into_parent` (no raw push/pop and no `parent_mut()` write inside the block), the pop hands back exactly the
+child's own map and the parent chain; a type the block never names is absent from the popped map and
+untouched in the parents; and a type that was shadowed throughout (bound in the child whenever the block
+named it) has, in every parent scope, the value it had before the push. -/
+theorem pop_yields_inserted (r : Reg) (ops : List ROp) (h : Inv r) (hl : ∀ o ∈ ops, o.isLocal = true) :
+    ∃ s p, (run (intoChild r) ops).1 = s :: p ∧ p.length = r.length ∧
+      step (run (intoChild r) ops).1 .pop = (p, .popped s.view) ∧
+      (∀ q, (∀ o ∈ ops, q ∉ o.keys) → s.view q = none ∧ vcol p q = vcol r q) ∧
+      (∀ q, shadowedThroughout q (intoChild r) ops → vcol p q = vcol r q) := by
+  have hc : Inv (intoChild r) := ⟨by simp [intoChild], by simp [intoChild, quiet_cons, h.2, Scope.quiet]⟩
+  have hflat : ∀ o ∈ ops, o.flat = true := fun o ho => ROp.flat_of_isLocal o (hl o ho)
+  have hlen := run_length (intoChild r) ops hc hflat
+  have hfr := fun q hq => run_frame (intoChild r) ops q hc hflat hq
+  have htf := fun q hsh => run_tail_frame ops q [] r hc hl hsh
+  simp only [intoChild] at hlen hfr htf ⊢
+  generalize (run ([] :: r) ops).1 = X at *
+  cases X with
+  | nil => simp at hlen
+  | cons s p =>
+    have hp : p.length = r.length := by simpa using hlen
+    have hpne : p ≠ [] := by
+      intro hp'; rw [hp'] at hp
+      exact h.1 (List.eq_nil_of_length_eq_zero hp.symm)
+    refine ⟨s, p, rfl, hp, ?_, ?_, ?_⟩
+    · cases p with
+      | nil => exact absurd rfl hpne
+      | cons s' p' => simp [step, intoParent]
+    · intro q hq
+      have := hfr q hq
+      simp only [vcol_cons] at this
+      have h2 := List.cons.inj this
+      exact ⟨by simpa [Scope.view] using h2.1, h2.2⟩
+    · intro q hsh
+      have := htf q hsh
+      simpa [vcol_cons] using this
+
+example : shadowedThroughout (.ty 0) (intoChild [[(.ty 0, fresh 1)]])
+    [.ins (.ty 0) 2, .set (.ty 0) 5, .ins (.ty 1) 7, .entModOrIns (.ty 0) 1 9] := by
+  simp [shadowedThroughout, ROp.keys]; decide
+
 /-! Non-vacuity: a registry with shadowing satisfies `Inv`, and the refinement is about a real history. -/
 example : Inv [[(.ty 0, fresh 2)], [(.ty 0, fresh 1), (.ty 1, fresh 5)]] := ⟨by simp, by decide⟩
 example : ((run new [.ins (.ty 0) 1, .push, .ins (.ty 0) 2, .rem (.ty 0), .tryGet (.ty 0)]).2.map
     (Out.toSexp 2 · |>.render)) = ["none", "ok", "none", "(v 2)", "(v 1)"] := by decide
+
+example : find [[(.ty 1, fresh 2)], [(.ty 0, fresh 1)]] (.ty 0) = some 1 := by decide
+example : find [[(.ty 1, fresh 2)], [(.ty 0, fresh 1)]] (.ty 2) = none := by decide
+example : nodupKeys [[(.ty 1, fresh 2), (.ty 0, fresh 4)], [(.ty 0, fresh 1)]] := by
+  simp [nodupKeys, Scope.nodupKeys, Scope.keys]
+example : (ROp.entModOrIns (.ty 0) 1 2).isLocal = true ∧ (ROp.parIns 0 (.ty 0) 2).isLocal = true := by decide
 
 end MahfModel.Props.C01
